@@ -267,7 +267,7 @@ V("c20-uniform-generator", "C20", "fire", NO, "return lambda n: np.random.unifor
 V("c20-zero-ones", "C20", "fire", NO, "return lambda n: np.zeros(n)", "return lambda n: np.zeros(n) + 1e-12", rule="CONST.zero", what="zero noise not zero")
 V("c20-normal-default-var", "C20", "fire", NO, "def normal(mean=0, var=1):", "def normal(mean=0, var=2):", rule="DEFAULTS", what="default variance changed")
 V("c20-uniform-n-plus", "C20", "fire", NO, "return lambda n: np.random.uniform(lo, hi, n)", "return lambda n: np.random.uniform(lo, hi, n + 1)", rule="SLOTS.uniform", what="wrong number of draws")
-V("c20-normal-shifted", "C20", "fire", NO, "return lambda n: np.random.normal(mean, var**0.5, n)", "return lambda n: np.random.normal(mean, var**0.5, n) + mean", rule="RESULT", what="mean added twice")
+V("c20-normal-shifted", "C20", "fire", NO, "return lambda n: np.random.normal(mean, var**0.5, n)", "return lambda n: np.random.normal(mean, var**0.5, n) + mean", rule="LAW", what="mean added twice")
 V("c20-silent-kwargs", "C20", "silent", NO, "return lambda n: np.random.laplace(mean, scale, n)", "return lambda n: np.random.laplace(loc=mean, scale=scale, size=n)", what="keyword slots")
 V("c20-silent-def", "C20", "silent", NO, "    return lambda n: np.random.uniform(lo, hi, n)", "    def draw(n):\n        return np.random.uniform(lo, hi, n)\n    return draw", what="nested def for lambda")
 
